@@ -9,6 +9,8 @@ for id in $ids; do
   cw=$(python3 -c "import json;print(json.load(open('/verif/seeded/$id/meta.json')).get('check_with',''))")
   [ -n "$cw" ] && P=$cw
   [ -f seeded/$id/patch_ported_to_repaired_keyring.diff ] && { patch=/verif/seeded/$id/patch_ported_to_repaired_keyring.diff; P=C12; }
+  # the same change re-made on code that a later repair rewrote
+  for pp in seeded/$id/patch_ported_to_repaired_*.diff; do [ -f "$pp" ] && patch=/verif/$pp; done
   if ! git -C /repo apply --check $patch 2>/dev/null; then
     if git -C /repo apply --3way $patch >/dev/null 2>&1; then git -C /repo reset -q; else
       git -C /repo checkout -q -- . ; res="patch no longer applies to the repaired tree (the code it changes was rewritten by a later fix)"; 
